@@ -9,9 +9,26 @@
    Proofs/C18P.v.  The tie to the code: tools/props/c18.py (source scan that there is no OTHER
    address / hash / time / thread / environment dependence in src/, the machine replayed against
    the real crate with four different memory placements of the tapes, and digest equality of
-   workloads across processes, threads, heap states and call orders). *)
-From Coq Require Import List Arith Bool ZArith.
-From EasyML Require Import Base.Sx Model.Num Model.Tape Model.Determinism Proofs.C18P Run.RunC18.
+   workloads across processes, threads, heap states and call orders).
+
+   Session 3 additions:
+   * FRAME ("no result depends on previously executed unrelated library calls"): two clients with
+     their own registers share the tapes (Model/Determinism.v Section Two); whatever the other
+     client does on other tapes, in whatever interleaving, a client observes exactly the events of
+     running alone and leaves the same tape contents (C18_frame_interleaving,
+     C18_frame_two_interleavings; Proofs/C18FrameP.v).
+   * FORMATTED OUTPUT: Model/Format.v transcribes the Display code of matrices, tensors (D <= 3),
+     tensor accesses, records, traces, record containers and the LDLT result as functions to lists
+     of character codes, executed against the crate by Run/RunC18.v ((18 3 ..) cases, compared
+     byte for byte).  Theorems (Proofs/C18FormatP.v): the loops equal the documented layout
+     (C18_matrix_display_layout), an r-row matrix prints r lines (C18_matrix_display_lines), the
+     text DETERMINES rows, columns and all elements (C18_matrix_display_injective,
+     C18_tensor_display_injective for D <= 2) for every element renderer that is injective and
+     avoids blank / comma / newline -- which the two exact renderers of the correspondence do
+     (C18_renderers_admissible). *)
+From Coq Require Import List Arith Bool ZArith NArith.
+From EasyML Require Import Base.Sx Model.Num Model.Tape Model.Determinism Model.Format
+  Proofs.C18P Proofs.C18FrameP Proofs.C18FormatP Run.RunC18.
 Import ListNotations.
 
 (* any two injective address assignments -- of any two pointer types -- give the same final state
@@ -46,6 +63,72 @@ Proof. exact @positions_append_order. Qed.
 Theorem C18_runner_functional : forall a b, a = b -> run_c18 a = run_c18 b.
 Proof. intros a b H. rewrite H. reflexivity. Qed.
 
+(* ---------------------------------------------------------------- frame property
+   Two clients (owner true = L, owner false = R) with their own registers run an arbitrary
+   interleaving I against the same tapes.  inA marks the tapes L may name; L's instructions name
+   only those (and L allocates no tape: tape identities are allocation order), R's name none of
+   them (R may allocate).  Then the events L observes, L's registers and the contents of every
+   tape of A after the interleaving are those of L's instructions run ALONE from the same state:
+   same values, tape positions, derivative vectors, panics and error values. *)
+Theorem C18_frame_interleaving : forall R (ops : numops R) sl (inA : tid -> bool) ts rl rr
+    (I : list (bool * instr R)),
+  (forall t, inA t = true -> t < length ts) ->
+  regs_in inA true rl -> regs_in inA false rr -> Forall (confined2 inA) I ->
+  let joint := run2 ops sl (mkSt2 ts rl rr) I in
+  let solo := machine_run ops sl (mkSt ts rl) (proj true I) in
+  proj true (snd joint) = snd solo
+  /\ regsL (fst joint) = regs (fst solo)
+  /\ forall t, inA t = true -> tape_at (mkSt (tapes2 (fst joint)) []) t = tape_at (fst solo) t.
+Proof. exact @frame_interleaving. Qed.
+
+(* ... hence any two interleavings with the same L part -- a different R program, a different
+   order of R's calls, R's calls before, between or after L's -- are indistinguishable for L *)
+Theorem C18_frame_two_interleavings : forall R (ops : numops R) sl (inA : tid -> bool) ts rl rr
+    (I1 I2 : list (bool * instr R)),
+  (forall t, inA t = true -> t < length ts) ->
+  regs_in inA true rl -> regs_in inA false rr ->
+  Forall (confined2 inA) I1 -> Forall (confined2 inA) I2 ->
+  proj true I1 = proj true I2 ->
+  proj true (snd (run2 ops sl (mkSt2 ts rl rr) I1)) = proj true (snd (run2 ops sl (mkSt2 ts rl rr) I2)).
+Proof. exact @frame_two_interleavings. Qed.
+
+(* ---------------------------------------------------------------- formatted output *)
+(* the transcribed loops of matrices/views.rs format_view produce the documented layout *)
+Theorem C18_matrix_display_layout : forall E (re : option N -> E -> text) prec rows cols get,
+  0 < rows ->
+  fmt_matrix re prec rows cols get
+  = t_open ++ join (t_nl ++ t_indent) (map (join t_comma) (cells_of re prec rows cols get)) ++ t_close.
+Proof. exact @fmt_matrix_layout. Qed.
+
+(* one line per row *)
+Theorem C18_matrix_display_lines : forall E (re : option N -> E -> text) prec rows cols get,
+  (forall e, word (re prec e)) -> 0 < rows ->
+  newlines (fmt_matrix re prec rows cols get) = rows - 1.
+Proof. exact @matrix_display_lines. Qed.
+
+(* the text determines the shape and every element *)
+Theorem C18_matrix_display_injective : forall E (re : option N -> E -> text) prec,
+  (forall e, word (re prec e)) -> (forall a b, re prec a = re prec b -> a = b) ->
+  forall rows1 cols1 get1 rows2 cols2 get2,
+  0 < rows1 -> 0 < cols1 -> 0 < rows2 -> 0 < cols2 ->
+  fmt_matrix re prec rows1 cols1 get1 = fmt_matrix re prec rows2 cols2 get2 ->
+  rows1 = rows2 /\ cols1 = cols2 /\ forall r c, r < rows1 -> c < cols1 -> get1 r c = get2 r c.
+Proof. exact @matrix_display_injective. Qed.
+
+Theorem C18_tensor_display_injective : forall E (re : option N -> E -> text) prec,
+  (forall e, word (re prec e)) -> (forall a b, re prec a = re prec b -> a = b) ->
+  forall (sh : list (nat * nat)) (g1 g2 : list nat -> E) t,
+  length sh <= 2 -> Forall (fun p => 0 < snd p) sh ->
+  fmt_tensor re prec sh g1 = Some t -> fmt_tensor re prec sh g2 = Some t ->
+  forall idx, Forall2 (fun i p => i < snd p) idx sh -> g1 idx = g2 idx.
+Proof. exact @tensor_display_injective. Qed.
+
+(* the two exact element renderers used by the correspondence (i64: decimal; Tok: "<v>p<k>") are
+   admissible: no separator characters, injective -- for every precision *)
+Theorem C18_renderers_admissible : forall el prec,
+  (forall v, word (render el prec v)) /\ (forall a b, render el prec a = render el prec b -> a = b).
+Proof. intros el prec. split; [apply render_word | apply render_inj]. Qed.
+
 (* non-vacuity: injective assignments exist (identity; an allocator handing out k + 8 t), and
    injectivity is needed -- were two live tapes to compare equal, a cross-tape addition would be
    recorded instead of panicking *)
@@ -57,8 +140,43 @@ Proof.
   split; [exact identity_is_injective|]. split; [exact shifted_is_injective | exact collision_observable].
 Qed.
 
+(* non-vacuity of the frame theorem: L works on tape 0 while R clears, allocates, appends to and
+   panics on other tapes; R's activity is visible in the joint tapes but not to L *)
+Example C18_frame_nonvacuous :
+  let inA := Nat.eqb 0 in
+  let I : list (bool * instr Z) :=
+    [(true, IVar 0 2%Z); (false, IVar 1 5%Z); (false, INewTape); (true, IVar 0 3%Z); (false, IVar 2 7%Z);
+     (false, IAdd 0 1); (true, IMul 0 1); (false, IClear 1); (true, IDeriv 2)] in
+  (forall t, inA t = true -> t < 2) /\ Forall (confined2 inA) I /\
+  proj true (snd (run2 Fpops sl_id (mkSt2 [[]; []] [] []) I))
+  = snd (machine_run Fpops sl_id (mkSt [[]; []] []) (proj true I)) /\
+  length (proj false (snd (run2 Fpops sl_id (mkSt2 [[]; []] [] []) I))) = 5 /\
+  length (tapes2 (fst (run2 Fpops sl_id (mkSt2 [[]; []] [] []) I))) = 3.
+Proof.
+  cbv zeta. split; [|split; [|split; [|split]]].
+  - intros t H. apply Nat.eqb_eq in H. subst. auto.
+  - repeat constructor.
+  - vm_compute. reflexivity.
+  - vm_compute. reflexivity.
+  - vm_compute. reflexivity.
+Qed.
+
+(* non-vacuity of the formatting theorems: the documented example "[ 1, 2\n  3, 4 ]"
+   (matrices/views.rs printing_matrices) *)
+Example C18_format_nonvacuous :
+  fmt_matrix (render ElInt) None 2 2 (flat2 0%Z 2 [1; 2; 3; 4]%Z)
+  = [91;32;49;44;32;50;10;32;32;51;44;32;52;32;93]%N.
+Proof. exact documented_example. Qed.
+
 Print Assumptions C18_address_parametric.
 Print Assumptions C18_addresses_irrelevant.
 Print Assumptions C18_same_list_only_channel.
 Print Assumptions C18_positions_append_order.
 Print Assumptions C18_runner_functional.
+Print Assumptions C18_frame_interleaving.
+Print Assumptions C18_frame_two_interleavings.
+Print Assumptions C18_matrix_display_layout.
+Print Assumptions C18_matrix_display_lines.
+Print Assumptions C18_matrix_display_injective.
+Print Assumptions C18_tensor_display_injective.
+Print Assumptions C18_renderers_admissible.
